@@ -163,6 +163,10 @@ type seed struct {
 	b     *bld
 	aux   int
 	msg   bool // has type + 16-bit length in front
+	// reference side (refvec.go): the value these bytes stand for, written by hand from the same numbers the builder got
+	want    any
+	canon   bool // the bytes are the canonical encoding of want (no unknown elements the decoder drops)
+	refOnly bool // reference vector only: not a starting point of the decode-safety deviations
 }
 
 func seeds() []seed {
@@ -180,32 +184,32 @@ func seeds() []seed {
 	}
 	v := func(val uint64, kind, name string) *bld { return (&bld{}).vi(val, kind, name) }
 	s := func(str, name string) *bld { return (&bld{}).str(str, name) }
-	return []seed{
-		{"ns-empty", "namespace", bNamespace(), 0, false},
-		{"ns-one", "namespace", ns, 0, false},
-		{"ns-three", "namespace", bNamespace("a", "", "bcd"), 0, false},
-		{"ns-long", "namespace", bNamespace(long, "y"), 0, false},
-		{"params-one", "parameters", p1, 1, false},
-		{"params-two", "parameters", p2, 2, false},
-		{"props-ts", "properties", prTS, 0, false},
-		{"props-ts-ts", "properties", bProps(prop{typ: 6, val: 1}, prop{typ: 6, val: 1 << 40}), 0, false},
-		{"props-mixed", "properties", bProps(prop{typ: 2, val: 5}, prop{typ: 6, val: 1000}, prop{typ: 7, raw: "abc"}, prop{typ: 8, val: 9}), 0, false},
-		{"msg-setup", "controlmessage", bMessage(0x2F00, bSetupPayload(prop{typ: 1, raw: "/foo"}, prop{typ: 5, raw: "localhost"})), 0, true},
-		{"msg-setup-unknown", "controlmessage", bMessage(0x2F00, bSetupPayload(prop{typ: 1, raw: "/p"}, prop{typ: 2, val: 7}, prop{typ: 9, raw: "zz"})), 0, true},
-		{"msg-client-setup", "controlmessage", bMessage(0x20, bSetupPayload(prop{typ: 1, raw: "/foo"})), 0, true},
-		{"msg-server-setup", "controlmessage", bMessage(0x21, &bld{}), 0, true},
-		{"msg-subscribe", "controlmessage", bMessage(0x03, cat(v(1, "val", "requestID"), ns, s("bar", "trackName"),
-			v(1, "count", "params.count"), p1)), 0, true},
-		{"msg-subscribe-ok", "controlmessage", bMessage(0x04, cat(v(1, "val", "trackAlias"), v(1, "count", "params.count"), p1, prTS)), 0, true},
-		{"msg-publish", "controlmessage", bMessage(0x1d, cat(v(1, "val", "requestID"), ns, s("bar", "trackName"), v(2, "val", "trackAlias"),
-			v(1, "count", "params.count"), p1, prTS)), 0, true},
-		{"msg-publish-ok", "controlmessage", bMessage(0x1e, cat(v(1, "count", "params.count"), p1, prTS)), 0, true},
-		{"msg-request-ok", "controlmessage", bMessage(0x07, cat(v(0, "count", "params.count"))), 0, true},
-		{"msg-request-error", "controlmessage", bMessage(0x05, cat(v(0x10, "val", "code"), v(0, "val", "retry"), s("foo", "reason"))), 0, true},
-		{"sg-plain", "subgroup", bSubgroup(0x30, 1, 0, false, sgObj{0, nil, "hello"}), 0, false},
-		{"sg-props", "subgroup", bSubgroup(0x71, 1, 7, true, sgObj{0, prTS, "hello"}), 0, false},
-		{"sg-props-empty", "subgroup", bSubgroup(0x31, 300, 1<<30, true, sgObj{2, nil, "h"}), 0, false},
-	}
+	return withReferenceValues([]seed{
+		{name: "ns-empty", codec: "namespace", b: bNamespace()},
+		{name: "ns-one", codec: "namespace", b: ns},
+		{name: "ns-three", codec: "namespace", b: bNamespace("a", "", "bcd")},
+		{name: "ns-long", codec: "namespace", b: bNamespace(long, "y")},
+		{name: "params-one", codec: "parameters", b: p1, aux: 1},
+		{name: "params-two", codec: "parameters", b: p2, aux: 2},
+		{name: "props-ts", codec: "properties", b: prTS},
+		{name: "props-ts-ts", codec: "properties", b: bProps(prop{typ: 6, val: 1}, prop{typ: 6, val: 1 << 40})},
+		{name: "props-mixed", codec: "properties", b: bProps(prop{typ: 2, val: 5}, prop{typ: 6, val: 1000}, prop{typ: 7, raw: "abc"}, prop{typ: 8, val: 9})},
+		{name: "msg-setup", codec: "controlmessage", b: bMessage(0x2F00, bSetupPayload(prop{typ: 1, raw: "/foo"}, prop{typ: 5, raw: "localhost"})), msg: true},
+		{name: "msg-setup-unknown", codec: "controlmessage", b: bMessage(0x2F00, bSetupPayload(prop{typ: 1, raw: "/p"}, prop{typ: 2, val: 7}, prop{typ: 9, raw: "zz"})), msg: true},
+		{name: "msg-client-setup", codec: "controlmessage", b: bMessage(0x20, bSetupPayload(prop{typ: 1, raw: "/foo"})), msg: true},
+		{name: "msg-server-setup", codec: "controlmessage", b: bMessage(0x21, &bld{}), msg: true},
+		{name: "msg-subscribe", codec: "controlmessage", b: bMessage(0x03, cat(v(1, "val", "requestID"), ns, s("bar", "trackName"),
+			v(1, "count", "params.count"), p1)), msg: true},
+		{name: "msg-subscribe-ok", codec: "controlmessage", b: bMessage(0x04, cat(v(1, "val", "trackAlias"), v(1, "count", "params.count"), p1, prTS)), msg: true},
+		{name: "msg-publish", codec: "controlmessage", b: bMessage(0x1d, cat(v(1, "val", "requestID"), ns, s("bar", "trackName"), v(2, "val", "trackAlias"),
+			v(1, "count", "params.count"), p1, prTS)), msg: true},
+		{name: "msg-publish-ok", codec: "controlmessage", b: bMessage(0x1e, cat(v(1, "count", "params.count"), p1, prTS)), msg: true},
+		{name: "msg-request-ok", codec: "controlmessage", b: bMessage(0x07, cat(v(0, "count", "params.count"))), msg: true},
+		{name: "msg-request-error", codec: "controlmessage", b: bMessage(0x05, cat(v(0x10, "val", "code"), v(0, "val", "retry"), s("foo", "reason"))), msg: true},
+		{name: "sg-plain", codec: "subgroup", b: bSubgroup(0x30, 1, 0, false, sgObj{0, nil, "hello"})},
+		{name: "sg-props", codec: "subgroup", b: bSubgroup(0x71, 1, 7, true, sgObj{0, prTS, "hello"})},
+		{name: "sg-props-empty", codec: "subgroup", b: bSubgroup(0x31, 300, 1<<30, true, sgObj{2, nil, "h"})},
+	})
 }
 
 // boundary values for length / count / value fields
@@ -652,7 +656,7 @@ func workerMain(group, phase string, from int64, progressFile string, thorough b
 	sds := seeds()
 	for i := range sds {
 		sd := &sds[i]
-		if sd.codec != group {
+		if sd.codec != group || sd.refOnly {
 			continue
 		}
 		sum.SeedsLens[sd.name] = len(sd.b.b)
@@ -682,7 +686,7 @@ func describeCase(group, phase string, n int64, thorough bool) map[string]any {
 	sds := seeds()
 	for i := range sds {
 		sd := &sds[i]
-		if sd.codec != group || found != nil {
+		if sd.codec != group || found != nil || sd.refOnly {
 			continue
 		}
 		forEachCase(sd, thorough, sk)
